@@ -48,6 +48,8 @@ class MXT(Ext):
             return self.shape
         if name in ("size1", "size2"):
             return stub(lambda eng: self.shape[0 if name == "size1" else 1])
+        if name == "size":
+            return stub(lambda eng, *a: self.shape if not a else self.shape[a[0] - 1])
         if name == "T":
             return MXT("T", (self,), self.shape[::-1])
         if name not in casadi_facts()["mx_attributes"]:
@@ -341,7 +343,7 @@ class FnRec(Ext):
         if name == "call":
             def cl(eng, args, *modes):
                 a = eng.iterate(args)
-                out = MXT("call-result", (me, tuple(a)))
+                out = MXT("call-result", (me, tuple(a)), shape=(1, me.mapinfo[1]) if me.mapinfo is not None else (1, 1))
                 me.log.append(("call", me, a, out))
                 return VList([out])
             return stub(cl)
@@ -469,6 +471,121 @@ def h_for_equation(eng):
     eng.prove("forloop.body_stacks_the_equations_in_order", z3.BoolVal(bool(body_ok)))
     out = _check_mapping(eng, fx, log, body, "forloop")
     eng.prove("forloop.result_is_the_mapped_residual", z3.BoolVal(out is not None and isinstance(r, MXT) and r.kind == "T" and r.args[0] is out))
+
+
+def h_for_equation_with_delayed_symbol(eng):
+    """exitForEquation when one of the loop's indexed symbols stands for delay(expr(i), duration): the delayed expression is mapped
+    over the loop values exactly like the body (free symbols not iterated, the index bound to the values, every indexed symbol
+    registered BEFORE it bound to its own slice), the delay argument keeps its duration and becomes that mapped expression, the
+    model input that stands for the delayed value gets a symbol of the mapped size under the same name, and the loop body sees
+    that whole symbol element by element.  Nothing else in the model's delay lists moves."""
+    log = []
+    gm, cas = install_loops(eng, log)
+    A = AstFactory(eng)
+    wide = getattr(eng, "tier", "quick") == "thorough"
+    nk = 1 + eng.choice(3 if wide else 2)
+    nfree = eng.choice(3 if wide else 2)
+    pos = eng.choice(nk)                       # which indexed symbol is the delayed one
+    eng.input("indexed_symbols", nk)
+    eng.input("free_symbols", nfree)
+    eng.input("delayed_symbol_position", pos)
+    fx = _loop_fixture(eng, gm, cas, A, nk, nfree, False)
+    g, ks, frees, idx = fx["g"], fx["ks"], fx["frees"], fx["idx"]
+    mm = eng.load_module("pymoca.backends.casadi.model")
+    DA = eng.module_global(mm, "DelayArgument")
+    var_cls = eng.module_global(mm, "Variable")
+    # the delayed symbol was created by exitExpression under the name of the delay state
+    dname = "_pymoca_delay_1"
+    ks[pos].nm = dname
+    ks[pos].kind = "sym:" + dname
+    dexpr, ddur = MXT("delayed-expression"), MXT("duration")
+    other = eng.call(DA, [MXT("other-expression"), MXT("other-duration")], {})
+    mine = eng.call(DA, [dexpr, ddur], {})
+    inp_other = VObj(var_cls, {"symbol": MXSym("_pymoca_delay_0")})
+    inp_mine = VObj(var_cls, {"symbol": ks[pos]})
+    model = g.fields["model"]
+    model.fields["delay_states"] = VList(["_pymoca_delay_0", dname])
+    model.fields["delay_arguments"] = VList([other, mine])
+    model.fields["inputs"] = VList([inp_other, inp_mine])
+    # the delayed expression may mention free symbols, the index and the indexed symbols registered before the delayed one
+    dvars = frees[:1] + [idx] + ks[:pos]
+    body_symvar = cas.attrs["symvar"]
+    cas.attrs["symvar"] = stub(lambda eng, e: VList(list(dvars)) if e is dexpr else eng.call(body_symvar, [e], {}))
+    eng.call_contracts["_new_mx"] = lambda eng, args, kw: MXSym(str(args[0]), shape=tuple(args[1:]) if len(args) > 1 else (1, 1))
+    eqs = [A.ref("eq0")]
+    eterm = MXT("residual0")
+    eng.call_contracts["Generator.get_mx"] = lambda eng, args, kw: eterm
+    tree = VObj(VClass("ForEquation"), {"equations": VList(eqs)})
+    try:
+        eng.call(VBound(eng.find_function(GEN, "Generator.exitForEquation"), g), [tree], {})
+    except PyRaise as e:
+        eng.prove("fordelay.no_exception", False, exc=repr(e.exc))
+        return
+    if not log:
+        eng.cover("fordelay.empty")
+        eng.prove("fordelay.empty_range_leaves_the_delay_lists_alone", z3.And(fx["n"] == 0, z3.BoolVal(model.fields["delay_arguments"].items == [other, mine])))
+        return
+    eng.cover("fordelay.mapped")
+    eng.prove("fordelay.no_exception", True)
+    calls = [c for c in log if c[0] == "call"]
+    dcalls = [c for c in calls if c[1].parent is not None and c[1].parent.name == "delay_expr"]
+    bcalls = [c for c in calls if c[1].parent is not None and c[1].parent.name == "loop_body"]
+    eng.prove("fordelay.delayed_expression_and_body_are_each_mapped_once", z3.BoolVal(len(dcalls) == 1 and len(bcalls) == 1 and len(calls) == 2))
+    if len(dcalls) != 1 or len(bcalls) != 1:
+        return
+    _, dmap, dact, dout = dcalls[0]
+    D = dmap.parent
+    # formals: the free symbols of the loop body, the index, the indexed symbols registered before the delayed one
+    body_formals = bcalls[0][1].parent.inputs
+    free_formals = body_formals[1 + nk:]
+    want = list(free_formals) + [idx] + ks[:pos]
+    eng.prove("fordelay.delay_function_formals", z3.BoolVal(len(D.inputs) == len(want) and all(a is b for a, b in zip(D.inputs, want))), got=[repr(x) for x in D.inputs])
+    eng.prove("fordelay.delay_function_body_is_the_delayed_expression", z3.BoolVal(len(D.outputs) == 1 and D.outputs[0] is dexpr))
+    mode, nmap, nonrep, nonrep_out = dmap.mapinfo
+    eng.prove("fordelay.delay_mapped_over_every_loop_value", z3.And(ops.to_arith(nmap) == fx["n"], z3.BoolVal(mode == fx["mode"])))
+    eng.prove("fordelay.only_the_free_symbols_are_not_iterated", z3.BoolVal(sorted(nonrep) == list(range(len(free_formals))) and nonrep_out == []))
+    # actuals: free symbols, the loop values, then the slices of the earlier indexed symbols
+    ok = len(dact) == len(want) and all(a is b for a, b in zip(dact[:len(free_formals)], free_formals)) and dact[len(free_formals)] is fx["vals"]
+    for j in range(pos):
+        if not ok:
+            break
+        a = dact[len(free_formals) + 1 + j]
+        if fx["transposes"][j]:
+            ok = isinstance(a, MXT) and a.kind == "ca.transpose"
+            a = a.args[0] if ok else None
+        ok = ok and isinstance(a, MXT) and a.kind == "getitem" and a.args[0] is fx["origs"][j] and a.args[1] is fx["index_terms"][j]
+    eng.prove("fordelay.each_formal_of_the_delay_function_bound_to_its_own_actual", z3.BoolVal(bool(ok)))
+    # the model: argument, input symbol
+    das = model.fields["delay_arguments"].items
+    new = das[1] if len(das) == 2 else None
+    arg_ok = new is not None and das[0] is other and isinstance(new, VObj) and isinstance(new.fields.get("expr"), MXT) and new.fields["expr"].kind == "T" and \
+        new.fields["expr"].args[0] is dout and new.fields.get("duration") is ddur
+    eng.prove("fordelay.delay_argument_becomes_the_mapped_expression_duration_kept_others_untouched", z3.BoolVal(bool(arg_ok)))
+    eng.prove("fordelay.delay_states_unchanged", z3.BoolVal(model.fields["delay_states"].items == ["_pymoca_delay_0", dname]))
+    ns = inp_mine.fields["symbol"]
+    sym_ok = isinstance(ns, MXSym) and ns.nm == dname and ns is not ks[pos] and inp_other.fields["symbol"].nm == "_pymoca_delay_0" and model.fields["inputs"].items == [inp_other, inp_mine]
+    eng.prove("fordelay.input_of_the_delayed_value_renewed_under_the_same_name", z3.BoolVal(bool(sym_ok)))
+    if sym_ok:
+        eng.prove("fordelay.new_input_has_one_element_per_loop_value", z3.And(ops.to_arith(ns.shape[0]) == fx["n"], ops.to_arith(ns.shape[1]) == 1))
+    # the body sees the whole new symbol (and the other indexed symbols as before)
+    _, bmap, bact, bout = bcalls[0]
+    a = bact[1 + pos] if len(bact) > 1 + pos else None
+    if fx["transposes"][pos] and isinstance(a, MXT) and a.kind == "ca.transpose":
+        a = a.args[0]
+    elif fx["transposes"][pos]:
+        a = None
+    whole = isinstance(a, MXT) and a.kind == "getitem" and a.args[0] is ns and isinstance(a.args[1], VSlice) and (a.args[1].start, a.args[1].stop) == (None, None)
+    eng.prove("fordelay.body_reads_the_renewed_delay_symbol_element_by_element", z3.BoolVal(bool(whole)))
+    rest_ok = True
+    for j in range(nk):
+        if j == pos:
+            continue
+        b = bact[1 + j]
+        if fx["transposes"][j]:
+            rest_ok = rest_ok and isinstance(b, MXT) and b.kind == "ca.transpose"
+            b = b.args[0] if rest_ok else None
+        rest_ok = rest_ok and isinstance(b, MXT) and b.kind == "getitem" and b.args[0] is fx["origs"][j] and b.args[1] is fx["index_terms"][j]
+    eng.prove("fordelay.other_indexed_symbols_bound_as_without_delay", z3.BoolVal(bool(rest_ok)))
 
 
 class ValsC(Vals):
@@ -929,13 +1046,14 @@ def h_builtin_functions(eng):
 
 HARNESSES = [("Generator.exitExpression/operators", h_operator_dispatch), ("Generator.exitIfExpression", h_if_expression),
              ("Generator.exitIfEquation", h_if_equation), ("Generator.exitEquation", h_equation), ("ForLoop.__init__", h_for_range),
-             ("Generator.exitForEquation", h_for_equation), ("Generator.exitForStatement", h_for_statement),
+             ("Generator.exitForEquation", h_for_equation), ("Generator.exitForEquation with a delayed symbol", h_for_equation_with_delayed_symbol),
+             ("Generator.exitForStatement", h_for_statement),
              ("Generator.exitIfStatement+exitAssignmentStatement", h_assignment_and_if_statement),
              ("Generator.get_function", h_get_function), ("Generator.exitEquation/shapes", h_equation_shapes),
              ("Generator.get_derivative/expression", h_derivative_of_expression),
              ("Generator.exitExpression/built-in array functions, der, calls; exitArray; exitPrimary", h_builtin_functions)]
 EXPECTED_COVER = {"op.done", "ifexpr.done", "ifeq.done", "eq.done", "range.done", "forloop.empty", "forloop.mapped", "forstmt.empty", "forstmt.mapped",
-                  "ifstmt.done", "fn.done", "eqshape.done", "derexpr.done"} | {"builtin." + c for c in ("der", "transpose", "sum", "linspace", "fill1", "fill2", "zeros1", "zeros2", "ones1", "ones2", "identity", "cat", "user-function", "array", "primary")}
+                  "ifstmt.done", "fn.done", "eqshape.done", "derexpr.done", "fordelay.mapped", "fordelay.empty"} | {"builtin." + c for c in ("der", "transpose", "sum", "linspace", "fill1", "fill2", "zeros1", "zeros2", "ones1", "ones2", "identity", "cat", "user-function", "array", "primary")}
 BOUNDED = True
 LEVEL = "proof"
 TRUSTED = ["pyvc VC generator", "z3 5.1.0",
@@ -946,7 +1064,7 @@ TRUSTED = ["pyvc VC generator", "z3 5.1.0",
 ASSUMPTIONS = [
     "operator list of the statement: + - / ^ (and element-wise forms), * as matrix product, relations incl. <>, not/and/or, min/max/abs, elementary functions; 1-4 if branches; all integer loop bounds and non-zero steps",
     "arrays / matrix products' numeric layout and interpolation are outside the contracts",
-    "for-loop mapping: 0-3 indexed symbols, 0-2 free symbols, 1-2 body equations/statements, four orders of ca.symvar's result, any number of loop values (symbolic) for equations and 0-3 for statements; delayed symbols inside for-loops (the delay branch of exitForEquation) are outside the contracts",
+    "for-loop mapping: 0-3 indexed symbols, 0-2 free symbols, 1-2 body equations/statements, four orders of ca.symvar's result, any number of loop values (symbolic) for equations and 0-3 for statements; a delayed symbol inside a for-loop (the delay branch of exitForEquation): 1-2 indexed symbols (1-3 in the thorough tier) of which one is the delayed one at every position, 0-1 (0-2) free symbols",
     "algorithm sections: five declaration patterns (inputs/outputs/protected in any order), every assignable variable assigned once plus one reassignment; nested for/if statements inside a function are composed from the statement contracts, not proved as a whole",
 ]
 EXPLANATION = "Dispatch table against introspected CasADi interface, if-folds, residual sign, loop range."
